@@ -38,7 +38,7 @@ PROPS = {
                         'R2: drain_cutset(callback) applies the callback once per cut-set element, in order, and does nothing else with it'],
     },
     'C02': {
-        'units': ['seq_solver'],
+        'units': ['seq_solver', 'par_solver', 'par_owner'],
         'kani': [],
         'technique': 'Verus: ghost invariant sol_ok (stored solution replays to exactly the stored lower bound, present iff a bound is installed) on the extracted real solver text',
         'level_text': 'Deductive proof (Verus) that every function of the sequential solver that writes best_lb/best_sol keeps: solution present <==> lower bound installed, solution value == best_lb (through the diagram contract: value and solution come from the same diagram state), Completion.best_value == best_value() == Some(best_lb) iff a solution is present, best_upper_bound == best_lower_bound after an uninterrupted run.',
@@ -46,18 +46,38 @@ PROPS = {
         'not_decided': ['domain membership of each decision (behind the DecisionDiagram contract)', 'parallel solver part of the statement'],
         'assumptions': ['sort_unstable_by_key permutes its slice (trusted stub sort_best_sol, R11)'],
     },
+    'C03': {
+        'units': ['par_solver', 'par_owner'],
+        'dep_units': ['nodup_fringe', 'simple_fringe', 'ranking'],
+        'kani': [],
+        'technique': 'Verus: rely/guarantee (Owicki-Gries) proof of the monitor invariant over the extracted real critical sections of ParallelSolver, with ghost per-worker records; lock acquisition = trusted interference step',
+        'level_text': 'Deductive proof (Verus, every interleaving and every thread count >= 1, by the monitor rule): all accesses to Critical go through Mutex<Critical>, so each lock acquisition is modelled by a trusted interference step that re-establishes the monitor invariant G and the rely of the acquiring worker; every critical section (real text of best_lb, maybe_update_best, enqueue_cutset, notify_node_finished, abort_search, get_workload) is proved to re-establish G and to respect the guarantee the others rely on (never touches another worker record, best_lb monotone, abort/completion sticky). G contains the coverage invariant: every solution better than the incumbent is reachable from the fringe or from an active in-flight node (ghost records). process_one_node and the worker loop are verified against these contracts; a worker exits only when the search is complete or aborted; maximize() (owner phase, unit par_owner) ensures is_exact ==> value == optimum of the abstract DP, none iff infeasible, best_ub == best_lb.',
+        'level_note': 'Trusted: R7 interference/monitor_wait stubs (the monitor rule itself; parking_lot Mutex/Condvar), R15 run_workers (thread::scope = spawn nb_threads workers and join), the DecisionDiagram contract dd_post (as in C01), Fringe contract, DP axioms, R10 counter assumptions (< 2^64 pushes / explored nodes). Claimed for non-caching solvers (explores); caching: structural safety only. Termination is C04 (partial).',
+        'not_decided': ['termination (see C04)', 'caching solvers: optimality not claimed (see C09)', 'shared cache / dominance store races during compilation (behind the assumed DecisionDiagram contract and C18 atomicity assumption)'],
+        'assumptions': ['monitor rule: every access to Critical happens under the mutex (Rust type system); interference by other workers = finite sequence of their critical sections'],
+    },
+    'C04': {
+        'units': ['par_solver', 'par_owner'],
+        'dep_units': [],
+        'kani': [],
+        'technique': 'Verus: the safety facts the termination argument rests on, as obligations of the extracted real critical sections (monitor invariant with ghost in-flight accounting)',
+        'level_text': 'PARTIAL (liveness is outside this family). Deductive proof (Verus, all interleavings/thread counts) of: (a) monitor.wait is called only with an empty fringe and ongoing > 0 (precondition of the wait stub); (b) every notify_node_finished performs notify_all (ghost counter) and decrements ongoing / ongoing_by_layer exactly once, no underflow (ongoing == number of ghost in-flight records); (c) Complete is returned only when nothing is open or in progress, and then stays so (completed is sticky); (d) no worker can crash inside a critical section: every index in range, no counter under/overflow, under the invariant upper_bounds.len() == nb_threads, open/ongoing_by_layer.len() == n+1; (e) custom and with_nb_threads establish that invariant for every thread count; a worker leaves its loop only when the search is complete or aborted, and the abort path still calls notify_node_finished.',
+        'level_note': 'NOT decided: that every parked worker is eventually woken and that compile (user code) returns, i.e. termination itself; fairness of the condition variable. Trusted: R7/R15 stubs, R10 counter assumptions.',
+        'not_decided': ['liveness: every waiter is eventually woken; maximize() returns after finitely many steps', 'user callbacks terminate'],
+        'assumptions': [],
+    },
     'C05': {
-        'units': ['seq_solver'],
+        'units': ['seq_solver', 'par_solver', 'par_owner'],
         'dep_units': ['nodup_fringe', 'simple_fringe', 'ranking'],
         'kani': [],
         'technique': 'Verus: Err arm of process_one_node / abort_search / maximize contracts: best_lb <= optimum <= best_ub at every possible cut-off point',
         'level_text': 'Deductive proof (Verus): compile may fail at ANY call (Err arm), which over-approximates "cutoff fires at an arbitrary poll"; in that arm and after abort_search the lower bound is attained by a feasible solution and optimum <= best_ub; is_exact is reported iff no abort happened and then implies proved optimality.',
-        'level_note': 'Sequential solver only; the parallel clauses of C05 are decided by unit par_solver when built. Same assumed trait contracts as C01.',
-        'not_decided': ['parallel solver clauses'],
+        'level_note': 'Parallel solver: unit par_solver proves (for every interleaving, monitor rule) that after abort_search the recorded best_ub covers every in-flight upper bound, the top of the fringe and the incumbent, and that no later critical section lowers it (S7 of the monitor invariant, guar_acq); par_owner::maximize exports optimum <= best_ub after a cutoff. Same assumed trait contracts as C01/C03.',
+        'not_decided': [],
         'assumptions': [],
     },
     'C14': {
-        'units': ['seq_solver'],
+        'units': ['seq_solver', 'par_owner'],
         'dep_units': ['nodup_fringe', 'simple_fringe', 'ranking'],
         'kani': [],
         'technique': 'Verus: set_primal contract + search invariant holds from any feasible primal, on the extracted real text',
@@ -144,5 +164,5 @@ NOT_APPLICABLE = {
     'C16': 'twelve whole example programs (parsers, clap, f64 bounds, per-problem admissibility theories): outside the reach of function contracts here; see DESIGN.md section 5',
     'C20': 'property about the syntax of a format!/Debug-built string: Verus has no str reasoning and Kani stubs format!; see DESIGN.md section 5',
 }
-for _p in ['C03','C04','C06','C07','C08','C12','C15']:
+for _p in ['C06','C07','C08','C12','C15']:
     NOT_APPLICABLE.setdefault(_p, 'not built yet (deciding unit under construction; see DESIGN.md section 10)')
